@@ -101,7 +101,7 @@ REQUIRED = ["op:bytes-unchanged", "op:failure-reported", "op:trace-clean-on-fail
             "W:kind:KeyError", "W:kind:unser-object", "W:aux-faults", "W:natural-faults", "W:real:tta",
             "W:real:side", "W:real:hmm", "W:target:handle", "W:pre:missing", "audit:write-open-seen",
             "op:dir-refused-unchanged", "op:dir-accepted-only-region-gbk-removed", "D:accepted-own-content-only",
-            "D:refused-foreign", "D:region-gbk-removed-on-reuse", "D:path-is-file", "D:path-missing"]
+            "D:refused-foreign", "D:region-gbk-removed-on-reuse", "D:path-is-file", "D:path-missing", "op:E-whole-run-fault"]
 
 INJECT_MESSAGE = "vf-c20 injected conversion failure"
 QUICK_PAIRS_FOR_TWO_RECORDS = 4
@@ -1177,6 +1177,114 @@ def dir_cases(elements_universe, full):
 
 
 # --------------------------------------------------------------------------------------------
+# (E) the whole run: main.run_antismash on its own earlier results with a module that cannot be converted
+# --------------------------------------------------------------------------------------------
+
+E_MODULE = "antismash.detection.verif_stub"
+
+
+class _Opaque:
+    pass
+
+
+def _e_faults():
+    return [("to_json-raises-TypeError", TypeError("cannot convert this module")),
+            ("to_json-raises-ValueError", ValueError("bad value in module results")),
+            ("json-contains-a-set", {"names": {"a", "b"}}),
+            ("json-contains-an-object", [_Opaque()]),
+            ("json-contains-int-beyond-64-bits", {"n": 1 << 80})]
+
+
+def end_to_end(ctx, base, main_module, config_module, kinds):
+    """ A successful run into a fresh directory, a successful reuse run, then a reuse run (--reuse-results <out>/x.json
+        --output-dir <out>) in which one module's results cannot be converted: the failure must reach the caller and the
+        results file of the earlier run must be unchanged. Only the prerequisite check and the detection stage are
+        replaced (no HMMER here); everything else, incl. the place where the target is opened, is the real run. """
+    import gc
+    from unittest.mock import patch
+    from antismash.common.module_results import ModuleResults
+    from antismash.common.test.helpers import get_path_to_nisin_genbank
+
+    class StubResults(ModuleResults):
+        __slots__ = ["payload"]
+
+        def __init__(self, record_id, payload):
+            super().__init__(record_id)
+            self.payload = payload
+
+        def to_json(self):
+            if isinstance(self.payload, Exception):
+                raise self.payload
+            return {"schema": 1, "record_id": self.record_id, "values": self.payload}
+
+        def add_to_record(self, record):
+            pass
+
+    def detection_with(payload):
+        def detection(record, _options, module_results):
+            module_results.pop(E_MODULE, None)
+            module_results[E_MODULE] = StubResults(record.id, payload)
+            record.skip = "No regions detected"
+            return {}
+        return detection
+
+    def pipeline(sequence, args, payload):
+        config_module.destroy_config()
+        with patch.object(main_module, "check_prerequisites", return_value=None), \
+                patch.object(main_module, "run_detection", side_effect=detection_with(payload)):
+            options = config_module.build_config(args, isolated=True, modules=main_module.get_all_modules())
+            try:
+                return main_module.run_antismash(sequence, options)
+            finally:
+                config_module.destroy_config()
+                gc.collect()
+
+    for label, payload in kinds:
+        out = os.path.join(base, "e", label)
+        os.makedirs(os.path.dirname(out), exist_ok=True)
+        case = {"part": "E", "fault": label}
+        args = ["--minimal", "--output-dir", out]
+        try:
+            first = pipeline(get_path_to_nisin_genbank(), args, ["fine"])
+            target = os.path.join(out, "nisin.json")
+            if first != 0 or not os.path.exists(target):
+                ctx.count("E:skipped:first-run-failed")
+                continue
+            again = pipeline("", args + ["--reuse-results", target], ["fine"])
+            with open(target, "rb") as handle:
+                previous = handle.read()
+            if again != 0 or not previous:
+                ctx.violate("E-faultfree-reuse-run-keeps-results", {"fault": label, "exit": again, "bytes": len(previous)}, case)
+                continue
+        except Exception as err:  # pylint: disable=broad-except
+            ctx.count("E:skipped:setup-raised:" + type(err).__name__)
+            continue
+        listing_before = _snapshot(out)
+        reported = None
+        try:
+            pipeline("", args + ["--reuse-results", target], payload)
+        except BaseException as err:  # pylint: disable=broad-except
+            reported = type(err).__name__
+        with open(target, "rb") as handle:
+            current = handle.read()
+        ctx.count("op:E-whole-run-fault")
+        ctx.count("E:fault:" + label)
+        ctx.case(case, nontrivial=True)
+        facts = {"fault": label, "reported": reported, "bytes_before": len(previous), "bytes_after": len(current)}
+        if reported is None:
+            ctx.violate("E-failure-reported", facts, case)
+        if current != previous:
+            ctx.violate("E-results-file-unchanged", facts, case)
+        listing_after = _snapshot(out)
+        lost = sorted(k for k in listing_before if k not in listing_after and not fnmatch.fnmatch(os.path.basename(k), REGION_PATTERN))
+        if lost:
+            ctx.violate("E-failed-run-removed-files", dict(facts, lost=lost[:5]), case)
+        shutil.rmtree(out, ignore_errors=True)
+    config_module.destroy_config()
+    config_module.build_config([], isolated=True, modules=[])
+
+
+# --------------------------------------------------------------------------------------------
 # known findings on the current tree (classifiers keyed on the mechanism)
 # --------------------------------------------------------------------------------------------
 
@@ -1254,6 +1362,14 @@ def run(ctx):
 def _run(ctx, base, main_module, config_module):
     quick = ctx.tier == "quick"
     complete = True
+
+    # ---- (E) -------------------------------------------------------------------------------
+    if ctx.worker == 0:
+        kinds = _e_faults()
+        if quick:
+            kinds = [kinds[(ctx.seed + i) % len(kinds)] for i in (0, 2, 3)]
+        ctx.guard("harness:end-to-end-crashed", {"part": "E"}, end_to_end, ctx, base, main_module, config_module, kinds)
+        logging.disable(logging.CRITICAL)       # run_antismash sets logging up again
 
     # ---- (D) -------------------------------------------------------------------------------
     cases = dir_cases(D_ELEMENTS, full=not quick)
